@@ -226,6 +226,41 @@ pub fn run(ctx: &Ctx, rep: &mut Report) {
     let ij: Vec<Job> = js.iter().filter(|j| matches!(j.ty, Ty::Int(_))).cloned().collect();
     run_prop_jobs(rep, ctx, "floats:write-then-parse", &fj, ctx.n((2_500_000 / nf).max(1500), (50_000_000 / nf).max(20_000)), case_strategy, case_json, check);
     run_prop_jobs(rep, ctx, "integers:write-then-parse", &ij, ctx.n((1_500_000 / ni).max(1000), (30_000_000 / ni).max(10_000)), case_strategy, case_json, check);
+    // enumerated: every float whose shortest numeral is one or two digits times a power of ten (d * 10^e over the whole
+    // exponent range), trim_floats off and on - with trimming the written text is an integer mantissa with an exponent
+    // ("1e308"), which reaches the parser's range checks differently from "1.0e308"
+    let ej: Vec<Job> = fj.iter().filter(|j| cat().models[j.entry].mantissa_radix() == 10 && cat().group("core").contains(&j.entry)).cloned().collect();
+    run_enum(rep, ctx, "floats:short-decimals-enumerated", ej.len() * 2, |ci, l, viol| {
+        let j = &ej[ci / 2];
+        let m = &cat().models[j.entry];
+        let fi = match j.ty {
+            Ty::Float(fi) => fi,
+            _ => return,
+        };
+        let k = kind_of(fi);
+        let (lo, hi) = if k.p == 53 { (-330i32, 309i32) } else { (-50, 39) };
+        for e in lo..=hi {
+            for d in 1u32..=99 {
+                let text = format!("{d}e{e}");
+                let bits = if k.p == 53 { text.parse::<f64>().unwrap().to_bits() } else { text.parse::<f32>().unwrap().to_bits() as u64 };
+                if bits == k.inf_bits() {
+                    continue;
+                }
+                for neg in [false, true] {
+                    let mut opts = WOpts::default_for(m);
+                    opts.trim = ci % 2 == 1;
+                    let c = Case { value: (if neg { bits | k.sign_mask() } else { bits }) as u128, opts, long_infinity: false };
+                    if let Err(f) = check(j, &c, l) {
+                        if filter_known(ctx, l, &f) {
+                            viol.push((f.message, case_json(j, &c)));
+                            return;
+                        }
+                    }
+                }
+            }
+        }
+    });
+    rep.exhaustive.push(format!("d * 10^e, d = 1..99, every e of the type, both signs, trim_floats off/on, for {} decimal core formats x float types", ej.len()));
     // formats with zero accepted round trips would show up as violations; list the group counts
     let _ = pool();
 }
